@@ -777,7 +777,24 @@ def malformed_stream(rng, seeds, n):
 # ------------------------------------------------------------------------------------------
 
 def run_worker(ops, tag, timeout=300):
-    """Returns list of results or None on failure/timeout (with the output text)."""
+    """Returns list of results or None on failure/timeout (with the output text).
+
+    The worker has a per-operation alarm of its own, so a time-out of a whole batch means the machine
+    is loaded, not that the decoder hangs: the batch is split and retried (coordinator's addition)."""
+    res, why = _run_worker_once(ops, tag, timeout)
+    if res is None and "rc=124" in why and len(ops) > 1:
+        mid = len(ops) // 2
+        a, wa = run_worker(ops[:mid], tag + "a", timeout)
+        if a is None:
+            return None, wa
+        b, wb = run_worker(ops[mid:], tag + "b", timeout)
+        if b is None:
+            return None, wb
+        return a + b, ""
+    return res, why
+
+
+def _run_worker_once(ops, tag, timeout=300):
     d = os.path.join(common.BUILD, "opack")
     os.makedirs(d, exist_ok=True)
     inp = os.path.join(d, "ops_%s.json" % tag)
